@@ -19,7 +19,8 @@ RULE = (
     "outside files. (i) all sequences up to length 4 (thorough 5) over a 10-symbol alphabet on a 2-group x 3-slot "
     "universe for each of the 7 limit combinations; (ii) Hypothesis histories of up to 60 steps: create (+/- event), "
     "duplicate created, modified (grown / shrunk / unchanged), deleted event (file gone or not), delete without "
-    "event, tmp->final move, final->non-matching move, final->final move (both names match), add/modify/remove batches (sorted or not), events for "
+    "event, tmp->final move, final->non-matching move, final->final move (both names match), move of a file to the same name "
+    "under another subdirectory with late / reordered / missing events (created-then-deleted, rescan-then-moved, ...), add/modify/remove batches (sorted or not), events for "
     "properties / tmp. paths, re-scans (_add_existing_files, _verify_ringbuffer_files) - no observer "
     "thread. After every step: every deleted file was tracked, is a data/metadata file in the tree and was the "
     "oldest of its group; records / queues / active_size equal the model (sizes as last reported); every deletion "
@@ -31,6 +32,7 @@ ASSUMPTIONS = ["events are dispatched synchronously through handler.dispatch; no
 FLOORS = {"nontrivial": 0.3}
 T0 = 1700000000
 SUB = "2023-11-14T22-13-20"
+SUB2 = "2023-11-14T22-13-10"  # file index i + len(files) names the SAME file name under this other subdirectory
 
 
 def budget(tier):
@@ -96,10 +98,13 @@ class Sim:
             f.write(b"\0" * size)
 
     def path(self, i):
+        nf = len(self.files)
+        if i >= nf:
+            return os.path.join(self.root, self.files[i - nf]["rel"].replace("/" + SUB + "/", "/" + SUB2 + "/"))
         return os.path.join(self.root, self.files[i]["rel"])
 
     def group(self, i):
-        g = self.files[i]["group"]
+        g = self.files[i % len(self.files)]["group"]
         return (os.path.join(self.root, g[0]), g[1])
 
     # ---- model updates (sizes are captured with stat() *before* the handler is called, because the
@@ -114,7 +119,7 @@ class Sim:
 
     def m_add(self, i, sizes):
         if i in sizes:
-            self.model[self.path(i)] = [self.group(i), self.files[i]["key"], sizes[i]]
+            self.model[self.path(i)] = [self.group(i), self.files[i % len(self.files)]["key"], sizes[i]]
             return True
         return False
 
@@ -251,6 +256,26 @@ def run_sim(case, fail):
                             sim.model.pop(p, None)
                             new_report = not tracked_before
                             sim.m_add(op["t"], sizes)
+                    elif o == "rename_sub":
+                        # the file is moved (on disk only) to the same name under another subdirectory, or back
+                        nf = len(sim.files)
+                        a, b = sim.path(op["f"] % nf), sim.path(op["f"] % nf + nf)
+                        src, dst = (a, b) if os.path.exists(a) else (b, a)
+                        if os.path.exists(src) and not os.path.exists(dst):
+                            os.makedirs(os.path.dirname(dst), exist_ok=True)
+                            os.rename(src, dst)
+                            info["irregular"] = True
+                    elif o == "moved_late":
+                        # a moved event that arrives after the fact (the destination may already be tracked)
+                        p, q = sim.path(op["f"]), sim.path(op["t"])
+                        if os.path.exists(q) and not os.path.exists(p):
+                            info["irregular"] = True
+                            tracked_before = q in sim.model
+                            sizes = sim.stat([op["t"]])
+                            sim.h.dispatch(ev.FileMovedEvent(p, q))
+                            sim.model.pop(p, None)
+                            new_report = not tracked_before
+                            sim.m_add(op["t"], sizes)
                     elif o == "move_away":
                         p = sim.path(op["f"])
                         dst = p + ".bak"
@@ -288,7 +313,7 @@ def run_sim(case, fail):
                     elif o == "rescan":
                         info["irregular"] = True
                         before = set(sim.model)
-                        sizes = sim.stat(range(len(sim.files)))
+                        sizes = sim.stat(range(2 * len(sim.files)))
                         if op["kind"] == "existing":
                             sim.rb._add_existing_files()
                         else:
@@ -296,7 +321,7 @@ def run_sim(case, fail):
                             for p in list(sim.model):
                                 if not os.path.exists(p) and p not in [x[1] for x in dels]:
                                     sim.model.pop(p)
-                        for i in range(len(sim.files)):
+                        for i in range(2 * len(sim.files)):
                             sim.m_add(i, sizes)
                         new_report = bool(set(sim.model) - before)
                 except Exception as e:
@@ -409,7 +434,30 @@ def _cases(draw, tier):
     sz = st.sampled_from([1024, 1500, 2048, 3000, 4096])
     for _ in range(nsteps):
         k = draw(st.sampled_from(["create"] * 6 + ["created", "modify", "modify", "deleted", "unlink", "move_tmp", "move_away", "move_final", "move_final",
-                                  "batch_add", "batch_modify", "batch_remove", "noise", "rescan"]))
+                                  "batch_add", "batch_modify", "batch_remove", "noise", "rescan", "move_sub", "move_sub"]))
+        if k == "move_sub":
+            # a tracked file changes subdirectory; the events describing it arrive late, reordered, duplicated or not at all
+            a = draw(f)
+            if draw(st.integers(0, 2)):
+                a = (a // slots) * slots + draw(st.integers(0, 1))  # one of the oldest slots of its group
+                if draw(st.booleans()):
+                    ops.append({"o": "create", "f": a, "size": draw(sz), "event": True})
+            how = draw(st.integers(0, 5))
+            ops.append({"o": "rename_sub", "f": a})
+            src, dst = (a, a + nfiles) if draw(st.integers(0, 3)) else (a + nfiles, a)
+            if how == 0:
+                ops.append({"o": "moved_late", "f": src, "t": dst})
+            elif how == 1:
+                ops.extend([{"o": "created", "f": dst}, {"o": "deleted", "f": src, "really": False}])
+            elif how == 2:
+                ops.extend([{"o": "rescan", "kind": "existing"}, {"o": "moved_late", "f": src, "t": dst}])
+            elif how == 3:
+                ops.extend([{"o": "created", "f": dst}, {"o": "moved_late", "f": src, "t": dst}])
+            elif how == 4:
+                ops.extend([{"o": "batch_add", "fs": [dst], "sort": True}, {"o": "deleted", "f": src, "really": False}])
+            else:
+                ops.append({"o": "created", "f": dst})
+            continue
         if k == "create":
             ops.append({"o": k, "f": draw(f), "size": draw(sz), "event": draw(st.sampled_from([True, True, True, False]))})
         elif k == "created":
@@ -461,7 +509,16 @@ def directed_cases(tier):
     ops = [{"o": "create", "f": 0, "size": 3000, "event": True}, {"o": "created", "f": 0}, {"o": "created", "f": 0},
            {"o": "create", "f": 1, "size": 3000, "event": True}, {"o": "rescan", "kind": "verify"},
            {"o": "create", "f": 2, "size": 2000, "event": True}]
-    return [{"nch": 1, "kinds": ["rf"], "slots": 6, "limits": {"size": 9000}, "ops": ops}]
+    out = [{"nch": 1, "kinds": ["rf"], "slots": 6, "limits": {"size": 9000}, "ops": ops}]
+    # the oldest tracked file moves to the same name under another subdirectory; the destination is reported before the
+    # (late) event for the source; then the limits are exceeded
+    for lim in ({"count": 3}, {"count": 3, "size": 20000}, {"duration": 1000}):
+        for mid in ([{"o": "created", "f": 6}, {"o": "deleted", "f": 0, "really": False}],
+                    [{"o": "rescan", "kind": "existing"}, {"o": "moved_late", "f": 0, "t": 6}]):
+            out.append({"nch": 1, "kinds": ["rf"], "slots": 6, "limits": lim, "ops": [
+                {"o": "create", "f": 0, "size": 2048, "event": True}, {"o": "create", "f": 1, "size": 2048, "event": True},
+                {"o": "rename_sub", "f": 0}] + mid + [{"o": "create", "f": i, "size": 2048, "event": True} for i in (2, 3, 4, 5)]})
+    return out
 
 
 def shrink_candidates(case):
